@@ -281,11 +281,15 @@ def def_decide(ctx):
             acc = {}
             hit = False
             for pres in (True, False):
-                ev3 = Evaluator(facts, classify=defer_classifier([], r['clock']), bool_atom=present_atom, assumption={'defer': GT, 'present': pres})
-                rc3 = Reach(facts, abody, ev3)
-                acc[pres] = (any(b in rc3.reachable for b in inserts), rc3.must_pass(unions) if unions else False,
-                             rc3.must_pass(inserts + unions) if (inserts or unions) else False)
-                hit = hit or bool(ev3.hits.get('present'))
+                # in both cases in which the remove is remembered: its clock strictly ahead of ours (Gt) or concurrent with it (None)
+                row = []
+                for o_ in (GT, NONE):
+                    ev3 = Evaluator(facts, classify=defer_classifier([], r['clock']), bool_atom=present_atom, assumption={'defer': o_, 'present': pres})
+                    rc3 = Reach(facts, abody, ev3)
+                    row.append((any(b in rc3.reachable for b in inserts), rc3.must_pass(unions) if unions else False,
+                                rc3.must_pass(inserts + unions) if (inserts or unions) else False))
+                    hit = hit or bool(ev3.hits.get('present'))
+                acc[pres] = (any(x[0] for x in row), all(x[1] for x in row), all(x[2] for x in row))
             aerrs = []
             if inserts and (not hit or acc[True][0]):
                 aerrs.append('a remove deferred under a clock that already has pending elements overwrites them (insert replaces the stored set)')
